@@ -15,6 +15,18 @@ Two sub-checks:
   lists, the get_all_* results and the Interop instance store of every
   server are compared with the model.
 
+  Blocked cleanups: other clients (and other managers) also subscribe to
+  filters/destinations a manager owns.  The server then refuses to delete
+  that filter/destination, so remove_server(), remove_all_servers() and the
+  context manager exit of the owner fail with CIM_ERR_FAILED half way.  What
+  such a failed cleanup has already deleted is not documented; the model is
+  re-synchronised from the servers (only owned instances of the acting
+  manager may be gone) and from then on the owned lists must again equal the
+  owned instances that are left, and a repeated cleanup after the blocking
+  subscription is gone must succeed and delete exactly the rest.  The step
+  generator steers towards these situations (blocker, cleanup, unblock,
+  retry).
+
 * ``idpairs``: a fixed scenario (A creates, B with another ID registers,
   creates and deregisters, A restarts and rediscovers, A deregisters) run
   over many generated pairs of manager IDs; it covers the ID space much more
@@ -54,9 +66,24 @@ RULE = (
     "remove_subscriptions / remove_filter / remove_destinations (single, "
     "list, referenced, stale), remove_server, remove_all_servers, context "
     "manager exit, client restart (new manager object with the same ID), "
-    "foreign instances created directly through the connection, calls with "
+    "foreign instances created directly through the connection (foreign "
+    "subscriptions also on filters/destinations owned by a manager, and "
+    "deleted again by their creator), owned subscriptions of one manager on "
+    "filters/destinations owned by another one, calls with "
     "an unregistered server id and with the documented invalid argument "
-    "combinations.  After every step: outcome == model's prediction from the "
+    "combinations.  Steering: a manager with owned filters/destinations gets "
+    "a foreign subscription on one of them (4%), a manager whose owned "
+    "instances are referenced by somebody else's subscription runs a cleanup "
+    "call (25%), after a blocked cleanup (60%) the blocking subscription is "
+    "removed by its creator, the cleanup is retried or the client restarts.  "
+    "A cleanup call (remove_server, remove_all_servers, context manager "
+    "exit) of a manager some of whose owned filters/destinations are "
+    "referenced by a subscription it does not own must fail with "
+    "CIM_ERR_FAILED; what it deleted before failing and whether the server "
+    "stays registered is taken from the servers / the manager (only owned "
+    "instances of that manager may be gone; a server that is no longer "
+    "registered although nothing blocked it must have lost all of them).  "
+    "After every step: outcome == model's prediction from the "
     "docstrings; get_owned_* of every manager on every registered server == "
     "model's owned set (tagged by the creating call, checked against the "
     "Name marker by string equality) and the instances equal the stored "
@@ -67,6 +94,9 @@ RULE = (
     "history = has two managers with related IDs (prefix, case variant, or "
     "one matches the other as a regular expression) both of which created "
     "owned instances, or a client restart followed by a successful removal. "
+    "Classes cleanup:blocked-by-*, cleanup:retry-after-unblock, "
+    "cleanup:retry-still-blocked, history:blocked-cleanup* count the "
+    "histories/steps with a blocked cleanup.  "
     "Non-trivial idpairs case = the two IDs are related in that sense.  "
     "Distinct = distinct history / distinct ID pair.")
 ASSUMPTIONS = [
@@ -76,14 +106,32 @@ ASSUMPTIONS = [
     "managers that are alive at the same time have different IDs (the "
     "statement speaks of a new manager with the same ID only after the old "
     "one is gone)",
-    "a manager uses as filter/destination of a subscription, and removes, "
-    "only instances that it owns itself or that are permanent or foreign: "
-    "the documented ownership of a subscription on another manager's owned "
-    "filter/destination is ambiguous (owned by the creator and, by the "
-    "discovery rule, by the other manager)",
-    "foreign (static) subscriptions reference only permanent or foreign "
-    "filters/destinations, and foreign instances are never removed through "
-    "a manager (static instances cannot be deleted by a client)",
+    "a manager removes only instances that it owns itself or that are "
+    "permanent; it creates owned (never permanent: 'the indication filter "
+    "and the listener destinations must not be owned') subscriptions also "
+    "on filters/destinations owned by another manager.  The documented "
+    "ownership of such a subscription is ambiguous (owned by the creator "
+    "and, by the discovery rule of add_server(), by the other manager as "
+    "well), therefore a manager does not register a server while a "
+    "subscription owned by another manager references one of its owned "
+    "filters/destinations there (the add_server step is skipped)",
+    "foreign subscriptions (created directly through the connection by a "
+    "client that is not a subscription manager) may reference any filter "
+    "and destination, also owned ones; they are deleted only by their "
+    "creator, not through a manager - except that, as add_server() "
+    "documents ('If a subscription references a filter or a destination "
+    "that is owned by this subscription manager, it is considered owned by "
+    "this subscription manager as well'), a manager that registers the "
+    "server while such a subscription (foreign, or orphaned by the known "
+    "finding) references one of its owned filters/destinations owns it "
+    "from then on and deletes it in its cleanup.  Foreign filters and "
+    "destinations are never removed (static instances cannot be deleted by "
+    "a client)",
+    "a cleanup call that fails because the server refuses to delete a "
+    "referenced filter/destination: the docstrings say neither which owned "
+    "instances are deleted before the failure nor whether the server stays "
+    "registered; both are accepted as found (the unmodified code keeps the "
+    "server registered), the owned lists must equal what is left",
     "names given to permanent and foreign instances are never exactly of the "
     "marker form 'pywbem{filter|destination}:<id of a manager of the "
     "history>:<text without colon>' (the Name is the documented ownership "
@@ -99,7 +147,9 @@ ASSUMPTIONS = [
     "after the first violation in a history the history ends (the model "
     "cannot follow a manager whose state is wrong), except for violations "
     "that leave the state untouched or that the model can follow (orphaned "
-    "subscription after restart)",
+    "subscription after restart; owned list lost in a failed cleanup: until "
+    "the cleanup succeeds or the client restarts, the steps of that manager "
+    "on that server other than cleanup calls are skipped)",
 ]
 SENSITIVITY = [
     # each applied alone to pywbem/_subscription_manager.py of a scratch
@@ -115,6 +165,8 @@ SENSITIVITY = [
     'discovery patterns compiled with re.I -> history/owned-list:add_server:dest:claims-instance-of-other-manager, idpairs/owned-list:add_server:dest:claims-instance-of-other-manager',
     'remove_subscriptions() not updating the local list -> history/owned-list:rm_subs:sub:claims-unknown-instance',
     "filter marker built as 'pywbemfilter:<filter id>:<manager id>' -> history/add_filter:Name-is-not-the-documented-marker, idpairs/add_filter:Name-is-not-the-documented-marker",
+    '(quick tier, seed 1, tree with /tmp/proposed_fixes/C18-1-failed-remove-server-drops-owned-lists.diff and without it) remove_server() dropping an owned list only after all its instances were deleted, instead of entry by entry (/tmp/seeded_out/C18/change2.diff) -> history/owned-list:failed-cleanup:filter:claims-instance-it-has-deleted, history/owned-list:failed-cleanup:dest:claims-instance-it-has-deleted (needs a blocked cleanup: 14% of the histories)',
+    '(unchanged tree) remove_server() that fails at a referenced filter/destination has already dropped the owned lists of the kinds it was done with, but the server stays registered: get_owned_subscriptions()/get_owned_filters(), add_subscriptions() ... raise KeyError -> history/remove_server:failed-cleanup-leaves-server-registered-without-owned-list; gone with /tmp/proposed_fixes/C18-1-failed-remove-server-drops-owned-lists.diff',
     '(unchanged tree) manager ID not escaped in the discovery patterns -> history/discovery:manager-id-interpreted-as-regex, idpairs/discovery:manager-id-interpreted-as-regex; gone with /tmp/proposed_fixes/C18-manager-id-regex-escape.diff',
 ]
 
@@ -482,6 +534,13 @@ def describe(rec_or_inst):
     return '%s %r' % (i.classname, i.get('Name'))
 
 
+# root cause: remove_server() drops the per-server owned lists kind by kind
+# while it works; if it fails at a filter/destination the server stays
+# registered without the lists dropped so far
+SIG_DROPPED_LIST = ('remove_server:failed-cleanup-leaves-server-registered-'
+                    'without-owned-list')
+
+
 class _Boom(Exception):
     "raised inside a with block of a manager"
 
@@ -503,7 +562,15 @@ class World:
         self.mgrs = []
         for mid in ids:
             self.mgrs.append({'id': mid, 'obj': WBEMSubscriptionManager(mid),
-                              'servers': set(), 'restarted': False})
+                              'servers': set(), 'restarted': False,
+                              # servers whose last cleanup by this manager
+                              # object failed (blocked) and that are still
+                              # registered
+                              'blocked': set(),
+                              # server -> kinds whose owned list the manager
+                              # dropped in a failed cleanup (see
+                              # SIG_DROPPED_LIST)
+                              'limbo': {}})
         self.failed = False
         self.events = set()
 
@@ -543,6 +610,39 @@ class World:
     def referenced(self, si, rec):
         return [r for r in self.recs[si].values() if r.kind == 'sub' and
                 (r.fkey == rec.key or r.hkey == rec.key)]
+
+    def others_owned(self, m, si, kind):
+        "records of that kind owned by another manager of the history"
+        o = self.own(m)
+        return [r for r in self.recs[si].values()
+                if r.kind == kind and r.owner[0] == 'mgr' and r.owner != o]
+
+    def mgr_owned(self, si, kind):
+        "records of that kind owned by any manager of the history"
+        return [r for r in self.recs[si].values()
+                if r.kind == kind and r.owner[0] == 'mgr']
+
+    def foreign_subs(self, si):
+        return [r for r in self.recs[si].values()
+                if r.kind == 'sub' and r.owner == ('foreign',)]
+
+    def blockers(self, m, si):
+        """
+        Subscriptions the manager does not own on filters/destinations it
+        owns: the server refuses to delete these filters/destinations, so
+        the cleanup of the manager cannot complete.
+        """
+        o = self.own(m)
+        okeys = set(r.key for r in self.recs[si].values()
+                    if r.kind != 'sub' and r.owner == o)
+        return [r for r in self.recs[si].values()
+                if r.kind == 'sub' and r.owner != o and
+                (r.fkey in okeys or r.hkey in okeys)]
+
+    def blocking(self, si, rec):
+        "managers whose failed cleanup of server si the subscription blocks"
+        return [m for m in self.mgrs if si in m['blocked'] and
+                rec in self.blockers(m, si)]
 
     @staticmethod
     def call(fn):
@@ -584,6 +684,12 @@ class World:
 
     def add_server(self, mi, si):
         m = self.mgrs[mi]
+        if si not in m['servers'] and \
+                [r for r in self.blockers(m, si) if r.owner[0] == 'mgr']:
+            # the discovery rule would make the subscription of the other
+            # manager owned by this one as well (see ASSUMPTIONS)
+            return ['skipped', 'skipped:add_server-while-other-manager-'
+                    'subscribes-to-own-instance']
         res = self.call(lambda: m['obj'].add_server(self.wserver(si)))
         if si in m['servers']:
             self.expect('add_server-twice', res, 'ValueError')
@@ -628,6 +734,14 @@ class World:
                             describe(self.recs[si][r.hkey])))
                     r.owner = ('orphan',)
                     cls.append('rediscovery:orphaned-subscription')
+        for r in self.blockers(m, si):
+            # documented: "If a subscription references a filter or a
+            # destination that is owned by this subscription manager, it is
+            # considered owned by this subscription manager as well."
+            # (subscriptions of other managers: excluded above)
+            cls.append('rediscovery:adopts-%s-subscription-on-owned' %
+                       r.owner[0])
+            r.owner = o
         if any(r.owner == o for r in self.recs[si].values()):
             cls.append('rediscovery:non-empty')
         return cls
@@ -764,7 +878,11 @@ class World:
         self.recs[si][rec.key] = rec
         return ['created:filter:' + ('owned' if owned else 'permanent')]
 
-    def add_subs(self, mi, si, fsel, dsel, owned):
+    def add_subs(self, mi, si, fsel, dsel, owned, cross=0):
+        """
+        cross: bit 0 = the filter, bit 1 = the destination(s) are taken from
+        the instances owned by the other managers.
+        """
         m = self.mgrs[mi]
         sid = self.urls[si]
         o = self.own(m)
@@ -778,6 +896,15 @@ class World:
             return ['refusal:unknown-server']
         flt = self.usable(m, si, 'filter')
         dst = self.usable(m, si, 'dest')
+        if cross:
+            if not owned:
+                # "When creating permanent subscriptions, the indication
+                # filter and the listener destinations must not be owned."
+                return ['skipped']
+            if cross & 1:
+                flt = self.others_owned(m, si, 'filter')
+            if cross & 2 and dsel is not None:
+                dst = self.others_owned(m, si, 'dest')
         if not flt:
             return ['skipped']
         f = flt[fsel % len(flt)]
@@ -801,6 +928,9 @@ class World:
         cls = ['subs:dest-' + ('none' if dsel is None else 'one' if
                                isinstance(dsel, int) else 'list'),
                'subs:' + ('owned' if owned else 'permanent')]
+        if f.owner[0] == 'mgr' and f.owner != o or \
+                [d for d in seq if d.owner[0] == 'mgr' and d.owner != o]:
+            cls.append('subs:on-instance-owned-by-other-manager')
         for d in seq:
             if not owned and (f.owner == o or d.owner == o):
                 exp = 'ValueError'
@@ -831,7 +961,8 @@ class World:
         if created:
             cls.append('created:sub:%s:%s-filter:%s-dest' % (
                 'owned' if owned else 'permanent',
-                'owned' if f.owner == o else f.owner[0],
+                'owned' if f.owner == o else
+                'other-manager' if f.owner[0] == 'mgr' else f.owner[0],
                 'owned' if created[0].hkey in
                 [r.key for r in self.owned_recs(m, si, 'dest')]
                 else 'other'))
@@ -960,12 +1091,88 @@ class World:
         return ['cleanup:%s-owned:%s-others' % ('some' if n else 'no',
                                                  'some' if others else 'no')]
 
+    def _cleanup_classes(self, m, sis, blocked):
+        "classes of a cleanup call of manager m on its servers sis"
+        cls = []
+        for si in sis:
+            if si in blocked:
+                for kind in sorted(set(r.owner[0] for r in
+                                       self.blockers(m, si))):
+                    cls.append('cleanup:blocked-by-%s-subscription' % {
+                        'mgr': 'other-manager'}.get(kind, kind))
+                if si in m['blocked']:
+                    cls.append('cleanup:retry-still-blocked')
+            elif si in m['blocked']:
+                cls.append('cleanup:retry-after-unblock')
+                self.events.add('retry-after-unblock')
+        if blocked:
+            self.events.add('blocked-cleanup')
+        return cls
+
+    def _is_registered(self, m, si):
+        # get_all_*() validate the server id first (ValueError) and do not
+        # use the owned lists
+        probe = self.call(lambda: m['obj'].get_all_filters(self.urls[si]))
+        return probe[0] != 'ValueError'
+
+    def _resync_after_blocked(self, op, m, sis, blocked):
+        """
+        A cleanup call of manager m failed as expected because some of its
+        owned filters/destinations are referenced by subscriptions it does
+        not own.  What a failed cleanup has already deleted, and whether
+        the server stays registered, is not documented: take from the
+        servers which of the owned instances of m are gone (anything else
+        that is gone is found by check()), and ask the manager which servers
+        are still registered.  From here on the owned lists must again equal
+        the model.
+        """
+        o = self.own(m)
+        for si in sis:
+            present = set(pkey(i.path) for i in _store_insts(self.conns[si]))
+            n = 0
+            for r in list(self.recs[si].values()):
+                if r.owner == o and r.key not in present:
+                    del self.recs[si][r.key]
+                    self.gone[si].append(r)
+                    n += 1
+            if n:
+                self.events.add('removal')
+                if m['restarted']:
+                    self.events.add('removal-after-restart')
+            if self._is_registered(m, si):
+                if si in blocked:
+                    m['blocked'].add(si)
+                continue
+            m['servers'].discard(si)
+            m['blocked'].discard(si)
+            m['limbo'].pop(si, None)
+            left = [r for r in self.recs[si].values() if r.owner == o]
+            if si not in blocked and left:
+                self.fail('cleanup:%s:server-deregistered-but-owned-'
+                          'instances-left' % op,
+                          'manager %r, server %d, nothing blocks the '
+                          'cleanup of this server: %r' % (m['id'], si, left))
+
+    def _cleanup_done(self, m, si):
+        m['blocked'].discard(si)
+        m['limbo'].pop(si, None)
+
     def rm_server(self, mi, si):
         m = self.mgrs[mi]
         res = self.call(lambda: m['obj'].remove_server(self.urls[si]))
         if not self._registered('remove_server', m, si, res):
             return ['refusal:unknown-server']
-        cls = self._model_remove_server(m, si)
+        blocked = [si] if self.blockers(m, si) else []
+        cls = self._cleanup_classes(m, [si], blocked)
+        if blocked:
+            # the server refuses to delete a filter/destination that is
+            # still referenced (DSP1054; CIM_ERR_FAILED in the mock server)
+            if self.expect('remove_server-blocked', res,
+                           ('CIMError', CIM_ERR_FAILED)):
+                self._resync_after_blocked('rm_server', m, [si], blocked)
+            return cls
+        cls += self._model_remove_server(m, si)
+        self._cleanup_done(m, si)
         self.expect('remove_server', res, 'ok')
         return cls
 
@@ -987,27 +1194,67 @@ class World:
         else:
             fn = m['obj'].remove_all_servers
         res = self.call(fn)
-        cls = []
-        for si in sorted(m['servers']):
+        sis = sorted(m['servers'])
+        blocked = [si for si in sis if self.blockers(m, si)]
+        cls = self._cleanup_classes(m, sis, blocked)
+        if blocked:
+            if self.expect('remove_all_servers-blocked', res,
+                           ('CIMError', CIM_ERR_FAILED)):
+                self._resync_after_blocked('rm_all', m, sis, blocked)
+            return cls
+        for si in sis:
             cls += self._model_remove_server(m, si)
+            self._cleanup_done(m, si)
         self.expect('remove_all_servers', res, 'ok')
         return cls
 
     def restart(self, mi):
         m = self.mgrs[mi]
         had = bool(m['servers'])
+        cls = ['restart:' + ('with-servers' if had else 'idle')]
+        if m['blocked']:
+            cls.append('restart:after-blocked-cleanup')
         m['obj'] = WBEMSubscriptionManager(m['id'])
         m['servers'] = set()
         m['restarted'] = True
-        return ['restart:' + ('with-servers' if had else 'idle')]
+        m['blocked'] = set()
+        m['limbo'] = {}
+        return cls
 
-    def foreign(self, si, kind, name, fsel, dsel):
+    def foreign(self, si, kind, name, fsel, dsel, own=0):
+        """
+        Another client (not a subscription manager) creates an instance
+        directly in the server, or deletes a subscription it created.
+        own (kind 'sub'): bit 0 = the filter, bit 1 = the destination is
+        taken from the instances owned by the managers, if there are any.
+        """
         conn = self.conns[si]
+        if kind == 'rmsub':
+            pool = self.foreign_subs(si)
+            if own:
+                pool = [r for r in pool if self.blocking(si, r)] or pool
+            if not pool:
+                return ['skipped']
+            r = pool[fsel % len(pool)]
+            cls = ['removed:sub:foreign']
+            if self.blocking(si, r):
+                cls.append('unblock:foreign-subscription-deleted')
+            try:
+                conn.DeleteInstance(r.path)
+            except pywbem.Error as exc:
+                raise HarnessError('foreign subscription not deleted: %s' %
+                                   exc) from exc
+            del self.recs[si][r.key]
+            self.gone[si].append(r)
+            return cls
         if kind == 'sub':
-            flt = [r for r in self.recs[si].values() if r.kind == 'filter' and
-                   r.owner[0] in ('perm', 'foreign')]
-            dst = [r for r in self.recs[si].values() if r.kind == 'dest' and
-                   r.owner[0] in ('perm', 'foreign')]
+            pools = []
+            for k, bit in (('filter', 1), ('dest', 2)):
+                pool = self.mgr_owned(si, k) if own & bit else []
+                pools.append(pool or [
+                    r for r in self.recs[si].values() if r.kind == k and
+                    r.owner[0] in ('perm', 'foreign')])
+            flt, dst = pools
             if not flt or not dst:
                 return ['skipped']
             f = flt[fsel % len(flt)]
@@ -1024,7 +1271,10 @@ class World:
                                    exc) from exc
             rec = Rec('sub', newpath, ('foreign',), fkey=f.key, hkey=d.key)
             self.recs[si][rec.key] = rec
-            return ['created:sub:foreign']
+            return ['created:sub:foreign',
+                    'created:sub:foreign:' + (
+                        'on-owned' if 'mgr' in (f.owner[0], d.owner[0])
+                        else 'on-unowned')]
         if is_marker_of(kind, name, self.ids) or \
                 [r for r in self.recs[si].values()
                  if r.kind == kind and r.name == name]:
@@ -1154,7 +1404,25 @@ class World:
                         ('dest', m['obj'].get_owned_destinations),
                         ('filter', m['obj'].get_owned_filters),
                         ('sub', m['obj'].get_owned_subscriptions)):
-                    lst = getter(sid)
+                    try:
+                        lst = getter(sid)
+                    except KeyError as exc:
+                        if si not in m['blocked']:
+                            raise
+                        # The failed cleanup left the server registered but
+                        # dropped this owned list.  Nothing in the server is
+                        # wrong and a repeated cleanup works: keep going,
+                        # with this manager restricted to cleanup calls on
+                        # this server (see Machine.apply).
+                        first = si not in m['limbo']
+                        m['limbo'].setdefault(si, set()).add(kind)
+                        if first:
+                            self.ctx.fail(SIG_DROPPED_LIST, (
+                                'after the failed cleanup (%s) manager %r '
+                                'still has server %d registered, but %s() '
+                                'raises %r') % (op, m['id'], si,
+                                                getter.__name__, exc))
+                        lst = []
                     got = sorted(pkey(i.path) for i in lst)
                     exp = sorted(r.key for r in
                                  self.owned_recs(m, si, kind))
@@ -1216,15 +1484,23 @@ class World:
         what = []
         for k in extra:
             r = self.recs[si].get(k)
-            what.append('claims %s' % (describe(r) if r else k,))
+            was = [g for g in self.gone[si] if g.key == k]
+            what.append('claims %s' % (
+                describe(r) if r else
+                'the deleted ' + describe(was[-1]) if was else k,))
         for k in missing:
             what.append('lacks %s' % describe(self.recs[si][k]))
         detail = 'manager %r, server %d, %s: %s' % (
             m['id'], si, kind, '; '.join(what) or 'duplicates')
         if extra:
             r = self.recs[si].get(extra[0])
+            cleaned = r is None and si in m['blocked'] and \
+                [g for g in self.gone[si] if g.key == extra[0] and
+                 g.owner == self.own(m)]
             sig = 'owned-list:%s:%s:claims-%s' % (
-                op, kind, 'unknown-instance' if r is None else
+                'failed-cleanup' if cleaned else op, kind,
+                'instance-it-has-deleted' if cleaned else
+                'unknown-instance' if r is None else
                 'instance-of-other-manager' if r.owner[0] == 'mgr' else
                 r.owner[0] + '-instance')
         elif missing:
@@ -1242,6 +1518,10 @@ class World:
 
 # ---------------------------------------------------------------------------
 # history machine
+
+LIMBO_SKIPS = ('add_dest', 'add_filter', 'add_subs', 'rm_subs', 'rm_filter',
+               'rm_dests', 'bad_args')
+
 
 class Machine:
     def __init__(self, ctx):
@@ -1281,6 +1561,32 @@ class Machine:
             return [draw(_I100) for _ in range(1 + draw(_I10) % 3)]
         return draw(_I100)
 
+    @staticmethod
+    def _g_cleanup(draw, mi, si):
+        x = draw(_I10)
+        if x < 6:
+            return {'op': 'rm_server', 'm': mi, 's': si}
+        if x < 8:
+            return {'op': 'rm_all', 'm': mi, 's': si}
+        return {'op': 'ctx_exit', 'm': mi, 's': si, 'exc': draw(_I10) < 3}
+
+    def _g_unblock(self, si, b):
+        """
+        The step by which the creator of the subscription b removes it, or
+        None if there is no such step.
+        """
+        w = self.w
+        if b.owner == ('foreign',):
+            pool = w.foreign_subs(si)
+            return {'op': 'foreign', 'm': 0, 's': si, 'kind': 'rmsub',
+                    'f': pool.index(b), 'd': 0, 'name': None, 'own': 0}
+        for bi, other in enumerate(w.mgrs):
+            if b.owner == w.own(other) and si in other['servers'] and \
+                    si not in other['limbo']:
+                return {'op': 'rm_subs', 'm': bi, 's': si,
+                        'sel': w.removable(other, si, 'sub').index(b)}
+        return None
+
     def _g_step(self, draw):
         """
         The next step; the choice of the operation looks at the model so
@@ -1291,6 +1597,44 @@ class Machine:
         m = w.mgrs[mi]
         reg = sorted(m['servers'])
         ns = len(w.conns)
+        steer = draw(_I100)
+        blk = sorted(m['blocked'])
+        if blk and steer < 60:
+            # a failed cleanup: remove what blocks it, retry it (blocked or
+            # not), or give up the manager object
+            si = blk[draw(_I10) % len(blk)]
+            x = draw(_I100)
+            bl = w.blockers(m, si)
+            if x < 40 and bl:
+                step = self._g_unblock(si, bl[draw(_I100) % len(bl)])
+                if step is not None:
+                    return step
+            if x < 90:
+                return self._g_cleanup(draw, mi, si)
+            return {'op': 'restart', 'm': mi, 's': si}
+        if reg and not blk:
+            # blocked cleanups: a subscription of somebody else on an owned
+            # filter/destination of this manager, then a cleanup call
+            bsi = [i for i in reg if w.blockers(m, i)]
+            if bsi and steer < 25:
+                return self._g_cleanup(draw, mi, bsi[draw(_I10) % len(bsi)])
+            osi = [i for i in reg if i not in bsi and
+                   (w.owned_recs(m, i, 'filter') or
+                    w.owned_recs(m, i, 'dest'))]
+            if osi and steer < 4:
+                si = osi[draw(_I10) % len(osi)]
+                step = {'op': 'foreign', 'm': mi, 's': si, 'kind': 'sub',
+                        'name': None, 'f': draw(_I100), 'd': draw(_I100),
+                        'own': 0}
+                has = (1 if w.owned_recs(m, si, 'filter') else 0) | \
+                    (2 if w.owned_recs(m, si, 'dest') else 0)
+                step['own'] = draw(st.sampled_from([1, 2, 3])) & has or has
+                for k, key, bit in (('filter', 'f', 1), ('dest', 'd', 2)):
+                    if step['own'] & bit:
+                        mine = w.owned_recs(m, si, k)
+                        step[key] = w.mgr_owned(si, k).index(
+                            mine[draw(_I100) % len(mine)])
+                return step
         if reg:
             si = reg[draw(_I10) % len(reg)]
             if draw(_I100) < 3:
@@ -1351,6 +1695,10 @@ class Machine:
             d = None if k < 2 else draw(_I100) if k < 7 else \
                 [draw(_I100) for _ in range(draw(_I10) % 4)]
             step.update(f=draw(_I100), d=d, owned=draw(_I10) < 7)
+            if len(w.mgrs) > 1 and draw(_I10) < 2:
+                # filter and/or destination owned by another manager
+                step.update(cross=draw(st.sampled_from([1, 1, 2, 2, 3])),
+                            owned=True)
         elif op == 'rm_subs':
             step.update(sel=self._g_sel(draw))
         elif op == 'rm_filter':
@@ -1358,10 +1706,16 @@ class Machine:
         elif op == 'rm_dests':
             step.update(sel=self._g_sel(draw))
         elif op == 'foreign':
-            kind = draw(st.sampled_from(['dest', 'filter', 'sub', 'sub']))
+            kind = draw(st.sampled_from(['dest', 'dest', 'filter', 'filter',
+                                         'sub', 'sub', 'sub', 'sub',
+                                         'rmsub']))
             step.update(kind=kind, f=draw(_I100), d=draw(_I100),
-                        name=None if kind == 'sub' else
+                        name=None if kind in ('sub', 'rmsub') else
                         _g_name(draw, kind, w.ids))
+            if kind == 'sub':
+                # half of the foreign subscriptions are on a filter and/or
+                # destination owned by a manager (if there is one)
+                step.update(own=draw(st.sampled_from([0, 0, 0, 1, 2, 3])))
         elif op == 'bad_args':
             step.update(which=draw(st.sampled_from(World.BAD_ARGS)))
         elif op == 'getter':
@@ -1375,7 +1729,12 @@ class Machine:
         op = step['op']
         mi, si = step['m'], step['s']
         m = w.mgrs[mi]
-        if op == 'add_server':
+        if si in m['limbo'] and op in LIMBO_SKIPS:
+            # the manager has lost an owned list of this server
+            # (SIG_DROPPED_LIST, reported): the model cannot follow what
+            # calls that use the list do; only cleanup calls go on
+            cls = ['skipped', 'skipped:manager-lost-owned-list']
+        elif op == 'add_server':
             cls = w.add_server(mi, si)
         elif op == 'add_dest':
             cls = w.add_dest(mi, si, step['owned'], step['id'], step['url'],
@@ -1385,7 +1744,8 @@ class Machine:
                                step['sns'], step['sn'], step['query'],
                                step['ql'])
         elif op == 'add_subs':
-            cls = w.add_subs(mi, si, step['f'], step['d'], step['owned'])
+            cls = w.add_subs(mi, si, step['f'], step['d'], step['owned'],
+                             step.get('cross', 0))
         elif op == 'rm_subs':
             cls = w.rm_subs(mi, si, step['sel'])
         elif op == 'rm_filter':
@@ -1402,7 +1762,7 @@ class Machine:
             cls = w.restart(mi)
         elif op == 'foreign':
             cls = w.foreign(si, step['kind'], step['name'], step['f'],
-                            step['d'])
+                            step['d'], step.get('own', 0))
         elif op == 'bad_args':
             if si not in m['servers']:
                 cls = ['skipped']
@@ -1413,7 +1773,7 @@ class Machine:
         else:
             raise HarnessError('unknown step %r' % (step,))
         ok = not w.failed
-        if ok and cls != ['skipped']:
+        if ok and cls[:1] != ['skipped']:
             ok = w.check(op, None if op == 'foreign' else m)
         if any(c.startswith('created:') and ':owned' in c for c in cls):
             self.creators.add(m['id'])
@@ -1437,6 +1797,10 @@ class Machine:
             cls.append('history:related-ids-both-created-owned')
         if restart_removal:
             cls.append('history:restart-then-removal')
+        if 'blocked-cleanup' in w.events:
+            cls.append('history:blocked-cleanup')
+        if 'retry-after-unblock' in w.events:
+            cls.append('history:blocked-cleanup-then-retry-after-unblock')
         self.ctx.case(nontrivial=rel or restart_removal, classes=cls)
 
     def teardown(self):
